@@ -410,3 +410,121 @@ Proof.
       rewrite forallb_forall in Hwf. apply Hwf. apply nth_In. exact Hlt.
     + rewrite nth_overflow by (rewrite map_length; exact Hge). exact I.
 Qed.
+
+(* ------------------------------------------------------------------ the reference semantics, task by task *)
+Definition of_task (i : nat) (e : event) : bool := Nat.eqb (e_task e) i.
+
+(* one step of srun under well-formedness *)
+Lemma sstep forks tasks S i r rest tl : (i < length S)%nat -> wfrem (nth i S sstate0) (r :: rest) ->
+  let ss := s_first (s_inherit tasks S i) (nth i S sstate0) r in
+  exists ev ss',
+    srun forks tasks ((i, r) :: tl) S = ev :: srun forks tasks tl (supd S i ss') /\
+    wfrem ss' rest /\ s_set ss' = true /\
+    spec_task i (s_dd ss) (s_stk ss) (r :: rest) = ev :: spec_task i (s_dd ss') (s_stk ss') rest /\
+    e_task ev = i.
+Proof.
+  intros Hi Hwf ss.
+  destruct (wfrem_first (s_inherit tasks S i) _ _ _ Hwf) as (last & Hwf1 & Hle & Hlast & Hbound).
+  fold ss in Hwf1, Hle. cbn [srun]. fold ss. cbn [spec_task wf_stream] in *.
+  destruct (r_type r) eqn:Hty.
+  - eexists. eexists. split; [reflexivity|]. split.
+    { unfold wfrem. cbn [s_set s_stk]. exists (r_time r). split.
+      - cbn [length]. replace (N.of_nat (Datatypes.S (length (s_stk ss)))) with (N.of_nat (length (s_stk ss)) + 1) by lia. lia.
+      - constructor; [lia|]. eapply Forall_impl; [|exact Hle]. cbn. intros; lia. }
+    cbn [s_set s_dd s_stk e_task]. auto.
+  - destruct (s_stk ss) as [|t0 stk'] eqn:Hstk; [cbn [length] in Hwf1; lia|].
+    inversion Hle as [|? ? Ht0 Hle']; subst.
+    eexists. eexists. split; [reflexivity|]. split.
+    { unfold wfrem. cbn [s_set s_stk]. exists (r_time r). split.
+      - cbn [length] in Hwf1. replace (N.of_nat (Datatypes.S (length stk')) - 1) with (N.of_nat (length stk')) in Hwf1 by lia. lia.
+      - eapply Forall_impl; [|exact Hle']. cbn. intros; lia. }
+    cbn [s_set s_dd s_stk e_task]. auto.
+Qed.
+
+Definition task_spec (i : nat) (ss : sstate) (rs : list rec) : list event :=
+  if s_set ss then spec_task i (s_dd ss) (s_stk ss) rs else spec_task i (s_dd ss) (spec_start rs) rs.
+
+(* the lines of one task depend on that task's own records only (a task without a fork()ing
+   parent, or one that has already started) *)
+Lemma srun_task forks tasks i : forall l S,
+  Forall (fun p => (fst p < length S)%nat) l ->
+  (forall j, wfrem (nth j S sstate0) (proj j l)) ->
+  k_parent (nth i tasks (mktask None [])) = None \/ s_set (nth i S sstate0) = true ->
+  filter (of_task i) (srun forks tasks l S) = task_spec i (nth i S sstate0) (proj i l).
+Proof.
+  induction l as [|[j r] tl IH]; intros S Hb Hwf Hpar.
+  - cbn. unfold task_spec. destruct (s_set _); reflexivity.
+  - inversion Hb as [|? ? Hj Hb']; subst. cbn [fst] in Hj.
+    pose proof (Hwf j) as Hwj. rewrite proj_cons_same in Hwj.
+    destruct (sstep forks tasks S j r (proj j tl) tl Hj Hwj) as (ev & ss' & E1 & Hw' & Hset' & Espec & Etask).
+    rewrite E1. cbn [filter]. unfold of_task at 1. rewrite Etask. clear Etask.
+    assert (Hwf' : forall k, wfrem (nth k (supd S j ss') sstate0) (proj k tl)).
+    { intros k. rewrite nth_supd by assumption. destruct (Nat.eqb k j) eqn:Ekj.
+      - apply Nat.eqb_eq in Ekj. subst k. exact Hw'.
+      - apply Nat.eqb_neq in Ekj. specialize (Hwf k). rewrite proj_cons_other in Hwf by assumption. exact Hwf. }
+    assert (Hb2 : Forall (fun p => (fst p < length (supd S j ss'))%nat) tl) by (rewrite length_supd; exact Hb').
+    destruct (Nat.eqb j i) eqn:Eji.
+    + apply Nat.eqb_eq in Eji. subst j.
+      assert (Hn : nth i (supd S i ss') sstate0 = ss').
+      { rewrite nth_supd by assumption. rewrite Nat.eqb_refl. reflexivity. }
+      rewrite (IH _ Hb2 Hwf') by (right; rewrite Hn; exact Hset').
+      rewrite Hn, proj_cons_same.
+      unfold task_spec at 1. rewrite Hset'. rewrite <- Espec.
+      unfold task_spec, s_first, s_inherit.
+      destruct (s_set (nth i S sstate0)) eqn:Eset; [reflexivity|].
+      destruct Hpar as [Hp|Hp]; [|congruence]. rewrite Hp. cbn [N.eqb s_dd s_stk spec_start]. reflexivity.
+    + apply Nat.eqb_neq in Eji.
+      rewrite (IH _ Hb2 Hwf').
+      * rewrite nth_supd by assumption. apply Nat.eqb_neq in Eji. rewrite Nat.eqb_sym, Eji.
+        apply Nat.eqb_neq in Eji. rewrite proj_cons_other by auto. reflexivity.
+      * rewrite nth_supd by assumption. apply Nat.eqb_neq in Eji. rewrite Nat.eqb_sym, Eji. exact Hpar.
+Qed.
+
+(* ------------------------------------------------------------------ streams that are traces of call forests *)
+Section call_ind.
+  Variable P : call -> Prop.
+  Hypothesis H : forall a t0 t1 kids, Forall P kids -> P (Call a t0 t1 kids).
+  Fixpoint call_ind' (c : call) : P c :=
+    match c with
+    | Call a t0 t1 kids =>
+        H a t0 t1 kids ((fix go (l : list call) : Forall P l :=
+                           match l with [] => Forall_nil _ | x :: t => Forall_cons _ (call_ind' x) (go t) end) kids)
+    end.
+End call_ind.
+
+Lemma spec_forest_gen i : forall f,
+  Forall (fun c => forall d dd stk rest,
+            spec_task i dd stk (flat d c ++ rest) = render i dd c ++ spec_task i dd stk rest) f ->
+  forall d dd stk rest,
+    spec_task i dd stk (flat_forest d f ++ rest) = render_forest i dd f ++ spec_task i dd stk rest.
+Proof.
+  induction 1 as [|c f Hc _ IH]; intros d dd stk rest; [reflexivity|].
+  unfold flat_forest, render_forest in *. cbn [flat_map]. rewrite <- !app_assoc. rewrite Hc, IH. reflexivity.
+Qed.
+
+Lemma spec_call i : forall c d dd stk rest,
+  spec_task i dd stk (flat d c ++ rest) = render i dd c ++ spec_task i dd stk rest.
+Proof.
+  induction c as [a t0 t1 kids IH] using call_ind'. intros d dd stk rest.
+  cbn [flat render]. cbn [app spec_task r_type r_addr r_time]. f_equal.
+  rewrite <- !app_assoc.
+  change (flat_map (flat (d + 1)) kids) with (flat_forest (d + 1) kids).
+  rewrite (spec_forest_gen i kids IH).
+  change (flat_map (render i (dd + 1)) kids) with (render_forest i (dd + 1) kids).
+  f_equal. cbn [app spec_task r_type r_addr r_time]. rewrite N.pred_succ || replace (N.pred (dd + 1)) with dd by lia.
+  reflexivity.
+Qed.
+
+(* complete calls: indentation = nesting depth, duration = t1 - t0 *)
+Theorem spec_forest i f d dd stk rest :
+  spec_task i dd stk (flat_forest d f ++ rest) = render_forest i dd f ++ spec_task i dd stk rest.
+Proof. apply spec_forest_gen. apply Forall_forall. intros c _. apply spec_call. Qed.
+
+(* calls still open at the end of the data *)
+Theorem spec_tail i : forall t d dd stk,
+  spec_task i dd stk (flat_tail d t) = render_tail i dd t.
+Proof.
+  induction t as [|a t0 kids rest IH]; intros d dd stk; [reflexivity|].
+  cbn [flat_tail render_tail spec_task r_type r_addr r_time]. f_equal.
+  rewrite spec_forest. f_equal. apply IH.
+Qed.
